@@ -14,7 +14,9 @@ import sys
 import time
 
 ROOT = os.path.dirname(os.path.dirname(os.path.abspath(__file__)))
-EVID = os.path.join(ROOT, "evidence")
+# evidence describes /repo; a run against a scratch copy (selftest/mutate.sh sets VERIF_REPO) must not overwrite it
+_SCRATCH_TARGET = os.path.abspath(os.environ.get("VERIF_REPO", "/repo")) != "/repo"
+EVID = os.path.join(ROOT, ".work", "evidence-scratch") if _SCRATCH_TARGET else os.path.join(ROOT, "evidence")
 REPLAYS = os.path.join(EVID, "replays")
 WORK = os.path.join(ROOT, ".work")
 
